@@ -8,6 +8,9 @@ package main
 //	                                         singleton (so the container requests an early reference) and the post-processors
 //	                                         REGISTERED in the order of the P section (imposed on GetSingletonNames); the
 //	                                         GetEarlyBeanReference callbacks of the smart (`s`) processors are logged (G:)
+//	            `SB L tok* P tok* R tok*`  → a start with TWO watched components (ordprobe, ordtwin; created in that order) and
+//	                                         InstantiationAware processors that SUPPLY an instance from PostProcessBeforeInstantiation
+//	                                         (marker b: for ordprobe, d: for ordtwin); every callback for either component is logged
 //	            `Q op (/ op)*`             → one configure.Configure driven through a sequence of  S tok* (SetLoaders),
 //	                                         A tok* (AddLoaders), I (Initialize); one `L:… B:… E:…` group per Initialize
 //
@@ -25,6 +28,16 @@ package main
 //	The decorator forwards every callback, so the logs still name the REGISTERED processor; the contract is judged by the
 //	registered processor's declared class and Order.  On the unchanged library a decorated processor stays at the position
 //	its registration earned (the registration loop appends inside the one walk over the sorted raw slice).
+//
+//	markers of `SB` starts (processors): b / d = PostProcessBeforeInstantiation hands out a ready-made instance for ordprobe /
+//	ordtwin (InstantiationAware processors only) — the factory then takes the short-circuit of createComponent
+//	(factory.go:170-181): that component gets the after-initialization chain and nothing else;  % = PostProcessBeforeInstantiation
+//	fails for the watched components;  r = PostProcessAfterInitialization answers the watched components with a REPLACEMENT
+//	(a wrapper around what it was given).
+//
+//	marker e (runners only) = the runner is a ZERO-SIZE Go type (a field-less struct; all of them share one address): it
+//	cannot carry its token, so its callbacks look the token up in / report to the package-level record of the current start
+//	(`curOrd`); at most three per class and start (twelve Go types zrP0 … zrQ2).  The driver ignores the marker.
 //
 //	p = Priority()+Order(), o = Order() only, n = neither, q = Priority() without Order() (must land in the plain block)
 //
@@ -44,6 +57,7 @@ import (
 	"time"
 
 	"github.com/go-kid/ioc/app"
+	"github.com/go-kid/ioc/component_definition"
 	"github.com/go-kid/ioc/configure"
 	"github.com/go-kid/ioc/configure/binder"
 	"github.com/go-kid/ioc/container"
@@ -382,6 +396,44 @@ type startLog struct {
 	L, B, I, P, A, R []int
 	G                []gCall // GetEarlyBeanReference callbacks: (component the early reference is for, processor)
 	cur              int     // loader whose LoadConfig ran last
+	// `SB` starts: PostProcessBeforeInstantiation calls for the probe (N) and the callbacks for the second watched component
+	N, N2, I2, P2, A2 []int
+}
+
+// the second watched component of `SB` starts; Refresh creates the components in name order: ordprobe, then ordtwin
+const ordTwinName = "ordtwin"
+
+type ordTwin struct{}
+
+func (p *ordTwin) Naming() string { return ordTwinName }
+
+// ordStandIn: the ready-made instance a supplying processor (marker b / d) hands out from PostProcessBeforeInstantiation
+type ordStandIn struct{ by ordTok }
+
+// ordWrap: the replacement a processor with marker r answers from PostProcessAfterInitialization
+type ordWrap struct {
+	inner any
+	by    ordTok
+}
+
+// ordDescribe: what a watched component finally is: raw / sup.<supplier>, then the wrappers from the inside out
+func ordDescribe(c any) string {
+	wraps := ""
+	for {
+		w, ok := c.(*ordWrap)
+		if !ok {
+			break
+		}
+		wraps = "+" + w.by.show(false) + wraps
+		c = w.inner
+	}
+	switch x := c.(type) {
+	case *ordProbe, *ordTwin:
+		return "raw" + wraps
+	case *ordStandIn:
+		return "sup." + x.by.show(false) + wraps
+	}
+	return "?" + wraps
 }
 
 type gCall struct {
@@ -475,10 +527,14 @@ func (b *logBinder) SetConfig(c []byte) error {
 
 // post-processors
 func ppBefore(b *sBase, c any, name string) (any, error) {
-	if name != ordProbeName {
+	switch name {
+	case ordProbeName:
+		b.log.P = append(b.log.P, b.tok.id)
+	case ordTwinName:
+		b.log.P2 = append(b.log.P2, b.tok.id)
+	default:
 		return c, nil
 	}
-	b.log.P = append(b.log.P, b.tok.id)
 	if b.tok.has('!') {
 		return nil, errInjected
 	}
@@ -513,18 +569,25 @@ func decorate(c any) any {
 }
 
 func ppAfter(b *sBase, c any, name string) (any, error) {
-	if name != ordProbeName {
+	if name != ordProbeName && name != ordTwinName {
 		if b.tok.has('w') && strings.HasPrefix(name, "ordP") {
 			return decorate(c), nil
 		}
 		return c, nil
 	}
-	b.log.A = append(b.log.A, b.tok.id)
+	if name == ordTwinName {
+		b.log.A2 = append(b.log.A2, b.tok.id)
+	} else {
+		b.log.A = append(b.log.A, b.tok.id)
+	}
 	if b.tok.has('^') {
 		return nil, errInjected
 	}
 	if b.tok.has('~') {
 		return nil, nil
+	}
+	if b.tok.has('r') {
+		return &ordWrap{inner: c, by: b.tok}, nil
 	}
 	return c, nil
 }
@@ -556,7 +619,33 @@ func (p *ipBase) PostProcessAfterInstantiation(c any, n string) (bool, error) {
 	if n == ordProbeName {
 		p.log.I = append(p.log.I, p.tok.id)
 	}
+	if n == ordTwinName {
+		p.log.I2 = append(p.log.I2, p.tok.id)
+	}
 	return false, nil
+}
+
+// PostProcessBeforeInstantiation (delegate:193-211 asks the InstantiationAware processors in chain order until one fails or
+// hands out a component): logged for the watched components; marker % fails, marker b (ordprobe) / d (ordtwin) supplies
+func (p *ipBase) PostProcessBeforeInstantiation(m *component_definition.Meta, n string) (any, error) {
+	var supply byte
+	switch n {
+	case ordProbeName:
+		p.log.N = append(p.log.N, p.tok.id)
+		supply = 'b'
+	case ordTwinName:
+		p.log.N2 = append(p.log.N2, p.tok.id)
+		supply = 'd'
+	default:
+		return nil, nil
+	}
+	if p.tok.has('%') {
+		return nil, errInjected
+	}
+	if p.tok.has(supply) {
+		return &ordStandIn{by: p.tok}, nil
+	}
+	return nil, nil
 }
 
 // smart processors: InstantiationAware + GetEarlyBeanReference (container/def.go:75-78)
@@ -759,6 +848,127 @@ type rnQ struct {
 	definition.PriorityComponent
 }
 
+// zero-size runners (marker e): field-less Go types, so every instance of every one of them has the same address. A zero-size
+// value cannot hold its token or a pointer to the log: Run / Order look both up in the record of the current start, by the
+// slot number that is fixed per Go type (one start at a time per process).
+type ordCur struct {
+	log *startLog
+	z   [12]ordTok // slot = 3*class + k, class in p o n q
+}
+
+var curOrd *ordCur
+
+func zrRun(slot int) error {
+	cur := curOrd
+	if cur == nil {
+		return nil
+	}
+	t := cur.z[slot]
+	cur.log.R = append(cur.log.R, t.id)
+	if t.has('!') {
+		return errInjected
+	}
+	return nil
+}
+
+func zrKey(slot int) int {
+	if cur := curOrd; cur != nil {
+		return cur.z[slot].key
+	}
+	return 0
+}
+
+type zrP0 struct{}
+type zrP1 struct{}
+type zrP2 struct{}
+type zrO0 struct{}
+type zrO1 struct{}
+type zrO2 struct{}
+type zrN0 struct{}
+type zrN1 struct{}
+type zrN2 struct{}
+type zrQ0 struct{}
+type zrQ1 struct{}
+type zrQ2 struct{}
+
+func (*zrP0) Naming() string { return "ordRzP0" }
+func (*zrP0) Run() error     { return zrRun(0) }
+func (*zrP0) Order() int     { return zrKey(0) }
+func (*zrP0) Priority()      {}
+func (*zrP1) Naming() string { return "ordRzP1" }
+func (*zrP1) Run() error     { return zrRun(1) }
+func (*zrP1) Order() int     { return zrKey(1) }
+func (*zrP1) Priority()      {}
+func (*zrP2) Naming() string { return "ordRzP2" }
+func (*zrP2) Run() error     { return zrRun(2) }
+func (*zrP2) Order() int     { return zrKey(2) }
+func (*zrP2) Priority()      {}
+func (*zrO0) Naming() string { return "ordRzO0" }
+func (*zrO0) Run() error     { return zrRun(3) }
+func (*zrO0) Order() int     { return zrKey(3) }
+func (*zrO1) Naming() string { return "ordRzO1" }
+func (*zrO1) Run() error     { return zrRun(4) }
+func (*zrO1) Order() int     { return zrKey(4) }
+func (*zrO2) Naming() string { return "ordRzO2" }
+func (*zrO2) Run() error     { return zrRun(5) }
+func (*zrO2) Order() int     { return zrKey(5) }
+func (*zrN0) Naming() string { return "ordRzN0" }
+func (*zrN0) Run() error     { return zrRun(6) }
+func (*zrN1) Naming() string { return "ordRzN1" }
+func (*zrN1) Run() error     { return zrRun(7) }
+func (*zrN2) Naming() string { return "ordRzN2" }
+func (*zrN2) Run() error     { return zrRun(8) }
+func (*zrQ0) Naming() string { return "ordRzQ0" }
+func (*zrQ0) Run() error     { return zrRun(9) }
+func (*zrQ0) Priority()      {}
+func (*zrQ1) Naming() string { return "ordRzQ1" }
+func (*zrQ1) Run() error     { return zrRun(10) }
+func (*zrQ1) Priority()      {}
+func (*zrQ2) Naming() string { return "ordRzQ2" }
+func (*zrQ2) Run() error     { return zrRun(11) }
+func (*zrQ2) Priority()      {}
+
+var zrCtors = [12]func() any{
+	func() any { return &zrP0{} }, func() any { return &zrP1{} }, func() any { return &zrP2{} },
+	func() any { return &zrO0{} }, func() any { return &zrO1{} }, func() any { return &zrO2{} },
+	func() any { return &zrN0{} }, func() any { return &zrN1{} }, func() any { return &zrN2{} },
+	func() any { return &zrQ0{} }, func() any { return &zrQ1{} }, func() any { return &zrQ2{} },
+}
+
+// zeroSizeFits: at most three zero-size runners per class (there are three Go types per class)
+func zeroSizeFits(rs []ordTok) bool {
+	var n [4]int
+	for _, t := range rs {
+		if t.has('e') {
+			k := strings.IndexByte("ponq", t.cls)
+			if k < 0 || n[k] == 3 {
+				return false
+			}
+			n[k]++
+		}
+	}
+	return true
+}
+
+// mkRunners: the runner objects of a start; the zero-size ones take the next free Go type of their class and leave their
+// token in the record of the current start
+func mkRunners(rs []ordTok, lg *startLog, cur *ordCur) []any {
+	var used [4]int
+	var out []any
+	for _, t := range rs {
+		if t.has('e') {
+			k := strings.IndexByte("ponq", t.cls)
+			slot := 3*k + used[k]
+			used[k]++
+			cur.z[slot] = t
+			out = append(out, zrCtors[slot]())
+			continue
+		}
+		out = append(out, mkRunner(sBase{tok: t, name: fmt.Sprintf("ordR%d", t.id), log: lg}))
+	}
+	return out
+}
+
 func mkRunner(b sBase) any {
 	switch b.tok.cls {
 	case 'p':
@@ -857,6 +1067,15 @@ func runOrderStart(ls, ps, rs []ordTok, cyc bool, tags []string, w *hx.Writer) {
 	if cyc {
 		head = "SC"
 	}
+	runOrderStartK(head, ls, ps, rs, tags, w)
+}
+
+// runOrderStartK: head = S | SC | SB
+func runOrderStartK(head string, ls, ps, rs []ordTok, tags []string, w *hx.Writer) {
+	cyc, sb := head == "SC", head == "SB"
+	if !zeroSizeFits(rs) {
+		return
+	}
 	c := hx.Case{Scn: strings.Join(strings.Fields(head+" L "+joinToks(ls)+" P "+joinToks(ps)+" R "+joinToks(rs)), " "), Tags: tags}
 	lg := &startLog{cur: -1}
 	var loaders []configure.Loader
@@ -864,6 +1083,9 @@ func runOrderStart(ls, ps, rs []ordTok, cyc bool, tags []string, w *hx.Writer) {
 		loaders = append(loaders, mkLoader(sBase{tok: t, name: fmt.Sprintf("ordL%d", t.id), log: lg}))
 	}
 	comps := []any{&ordProbe{}}
+	if sb {
+		comps = append(comps, &ordTwin{})
+	}
 	opts := []app.SettingOption{app.LogLevel(syslog.LvPanic)}
 	if cyc {
 		comps = []any{&ordProbeC{}, &ordMate{}}
@@ -878,9 +1100,9 @@ func runOrderStart(ls, ps, rs []ordTok, cyc bool, tags []string, w *hx.Writer) {
 	for _, t := range ps {
 		comps = append(comps, mkProc(sBase{tok: t, name: fmt.Sprintf("ordP%d", t.id), log: lg}))
 	}
-	for _, t := range rs {
-		comps = append(comps, mkRunner(sBase{tok: t, name: fmt.Sprintf("ordR%d", t.id), log: lg}))
-	}
+	cur := &ordCur{log: lg}
+	curOrd = cur
+	comps = append(comps, mkRunners(rs, lg, cur)...)
 	opts = append(opts,
 		app.SetConfigBinder(&logBinder{Binder: binder.NewViperBinder("yaml"), log: lg}),
 		app.SetConfigLoader(loaders...),
@@ -888,12 +1110,23 @@ func runOrderStart(ls, ps, rs []ordTok, cyc bool, tags []string, w *hx.Writer) {
 	type result struct {
 		err error
 		pan any
+		fin []string
 	}
 	done := make(chan result, 1)
 	go func() {
 		var res result
 		res.pan = hx.Guard(func() {
-			res.err = app.NewApp().Run(opts...)
+			a := app.NewApp()
+			res.err = a.Run(opts...)
+			if sb && res.err == nil { // what the two watched components finally are (the cached singletons)
+				for _, n := range []string{ordProbeName, ordTwinName} {
+					d := "?"
+					if x, err := a.Factory.GetComponentByName(n); err == nil {
+						d = ordDescribe(x)
+					}
+					res.fin = append(res.fin, d)
+				}
+			}
 		})
 		done <- res
 	}()
@@ -915,6 +1148,10 @@ func runOrderStart(ls, ps, rs []ordTok, cyc bool, tags []string, w *hx.Writer) {
 	e := "ok"
 	if res.err != nil {
 		e = "err"
+	}
+	if sb {
+		orderStartBFinish(c, ls, ps, rs, lg, res.err != nil, res.fin, w)
+		return
 	}
 	c.Obs = "L:" + showIDs(ls, lg.L, true) + " B:" + showIDs(ls, lg.B, true) + " I:" + showIDs(ps, lg.I, false) +
 		" P:" + showIDs(ps, lg.P, false) + " A:" + showIDs(ps, lg.A, false) + " R:" + showIDs(rs, lg.R, false)
@@ -1005,6 +1242,127 @@ func runOrderStart(ls, ps, rs []ordTok, cyc bool, tags []string, w *hx.Writer) {
 			c.Oracle = f
 			break
 		}
+	}
+	w.Put(c)
+}
+
+// orderStartBFinish: observation and oracles of an `SB` start.
+//
+// Oracles (the contract on the real logs, per watched component, in creation order ordprobe, ordtwin):
+//   - PostProcessBeforeInstantiation: the InstantiationAware processors are asked under the contract, each at most once,
+//     front to back up to the first one that fails (%) or supplies an instance for that component (b / d)        start-binst-*
+//   - a supplied component passes the after-initialization chain — every processor exactly once, in contract order, up to a
+//     failing (^) or nil-answering (~) one — and nothing else (no after-instantiation, no before-initialization round: the
+//     short-circuit of createComponent, factory.go:170-181)                                     start-after-*, start-shortcut
+//   - a component nobody supplies: the three rounds of an ordinary creation, as in `S` starts   start-inst-* start-processors-* start-after-*
+//   - a failing callback ends the start: no later component, no runner                           …-stage, start-result
+func orderStartBFinish(c hx.Case, ls, ps, rs []ordTok, lg *startLog, runErr bool, fin []string, w *hx.Writer) {
+	e := "ok"
+	if runErr {
+		e = "err"
+	}
+	for len(fin) < 2 {
+		fin = append(fin, "-")
+	}
+	c.Obs = "L:" + showIDs(ls, lg.L, true) + " B:" + showIDs(ls, lg.B, true) +
+		" C1 N:" + showIDs(ps, lg.N, false) + " I:" + showIDs(ps, lg.I, false) + " P:" + showIDs(ps, lg.P, false) +
+		" A:" + showIDs(ps, lg.A, false) + " F:" + fin[0] +
+		" C2 N:" + showIDs(ps, lg.N2, false) + " I:" + showIDs(ps, lg.I2, false) + " P:" + showIDs(ps, lg.P2, false) +
+		" A:" + showIDs(ps, lg.A2, false) + " F:" + fin[1] +
+		" R:" + showIDs(rs, lg.R, false) + " E:" + e
+
+	lastHas := func(in []ordTok, log []int, m byte) bool { return len(log) > 0 && in[log[len(log)-1]].has(m) }
+	loadStop := anyMark(ls, "!*")
+	var insts []ordTok // the InstantiationAware processors, re-indexed
+	instIdx := map[int]int{}
+	for _, t := range ps {
+		if t.inst {
+			instIdx[t.id] = len(insts)
+			t2 := t
+			t2.id = len(insts)
+			insts = append(insts, t2)
+		}
+	}
+	reindex := func(log []int) []int {
+		out := make([]int, 0, len(log))
+		for _, id := range log {
+			if k, ok := instIdx[id]; ok {
+				out = append(out, k)
+			} else {
+				out = append(out, -1) // a processor that is not InstantiationAware: seqOracle reports the foreign participant
+			}
+		}
+		return out
+	}
+	var checks []string
+	add := func(comp, f string) {
+		if f != "" {
+			checks = append(checks, f+" (component "+comp+")")
+		}
+	}
+	// one watched component; returns whether its creation failed (read off the real logs, which are checked themselves)
+	component := func(comp string, supply byte, reached bool, N, I, P, A []int) bool {
+		nlog, ilog := reindex(N), reindex(I)
+		add(comp, seqOracle("start-binst", insts, nlog, string(supply)+"%", reached, false))
+		if !reached {
+			add(comp, seqOracle("start-inst", insts, ilog, "", false, false))
+			add(comp, seqOracle("start-processors", ps, P, "!?", false, false))
+			add(comp, seqOracle("start-after", ps, A, "^~", false, false))
+			return false
+		}
+		binstErr := len(nlog) > 0 && nlog[len(nlog)-1] >= 0 && lastHas(insts, nlog, '%')
+		supplied := !binstErr && len(nlog) > 0 && nlog[len(nlog)-1] >= 0 && lastHas(insts, nlog, supply)
+		switch {
+		case binstErr:
+			add(comp, seqOracle("start-inst", insts, ilog, "", false, false))
+			add(comp, seqOracle("start-processors", ps, P, "!?", false, false))
+			add(comp, seqOracle("start-after", ps, A, "^~", false, false))
+			return true
+		case supplied:
+			add(comp, seqOracle("start-after", ps, A, "^~", true, false))
+			if len(I) != 0 || len(P) != 0 {
+				add(comp, fmt.Sprintf("FAIL start-shortcut an instance was supplied before instantiation, yet the regular creation ran too (%d after-instantiation, %d before-initialization callbacks)", len(I), len(P)))
+			}
+			return lastHas(ps, A, '^')
+		}
+		beforeErr := lastHas(ps, P, '!')
+		beforeStop := beforeErr || lastHas(ps, P, '?')
+		add(comp, seqOracle("start-inst", insts, ilog, "", true, false))
+		add(comp, seqOracle("start-processors", ps, P, "!?", true, false))
+		add(comp, seqOracle("start-after", ps, A, "^~", !beforeStop, false))
+		return beforeErr || (!beforeStop && lastHas(ps, A, '^'))
+	}
+	checks = append(checks, seqOracle("start-loaders", ls, lg.L, "!*", true, true))
+	if checks[0] == "" {
+		checks = checks[:0]
+	}
+	fail1 := component(ordProbeName, 'b', !loadStop, lg.N, lg.I, lg.P, lg.A)
+	fail2 := component(ordTwinName, 'd', !loadStop && !fail1, lg.N2, lg.I2, lg.P2, lg.A2)
+	procErr := fail1 || fail2
+	if f := seqOracle("start-runners", rs, lg.R, "!", !loadStop && !procErr, false); f != "" {
+		checks = append(checks, f)
+	}
+	var wantB []int
+	for _, id := range lg.L {
+		if ls[id].has('!') {
+			break
+		}
+		if ls[id].has('*') || ls[id].has('+') {
+			wantB = append(wantB, id)
+		}
+		if ls[id].has('*') {
+			break
+		}
+	}
+	if fmt.Sprint(wantB) != fmt.Sprint(lg.B) {
+		checks = append(checks, fmt.Sprintf("FAIL start-binder SetConfig sequence %v, LoadConfig sequence with data %v", lg.B, wantB))
+	}
+	wantErr := loadStop || procErr || anyMark(rs, "!")
+	if wantErr != runErr {
+		checks = append(checks, fmt.Sprintf("FAIL start-result Run error=%v, injected failure=%v", runErr, wantErr))
+	}
+	if len(checks) > 0 {
+		c.Oracle = checks[0]
 	}
 	w.Put(c)
 }
@@ -1499,7 +1857,209 @@ func confTags(ops []confOp) []string {
 	return tags
 }
 
+// uniqueAmongInst: no other InstantiationAware processor has the same class and key — so which InstantiationAware processors
+// are asked before this one does not depend on tie order (plain ones: it is the only plain InstantiationAware processor)
+func uniqueAmongInst(ps []ordTok, i int) bool {
+	for j, t := range ps {
+		if j != i && t.inst && t.rank() == ps[i].rank() && (t.rank() == 2 || t.key == ps[i].key) {
+			return false
+		}
+	}
+	return true
+}
+
+// genSB: an `SB` start. Processors as in the other starts (half of them InstantiationAware, LazyInit ones, injected stops
+// at tie-free positions); then in 7/8 of the cases one or two InstantiationAware processors SUPPLY an instance from
+// PostProcessBeforeInstantiation — for ordprobe (b), for ordtwin (d), or for both (one processor or two) —, in 1/10 one
+// fails there (%), and in 1/2 a third of the processors replace the watched components after initialization (r).
+// Suppliers and failing ones sit where the asked prefix does not depend on tie order (uniqueAmongInst); a plain
+// InstantiationAware processor is appended when there is no such place (the commonest shape: one unordered supplier).
+func genSB(r *hx.Rng) (ls, ps, rs []ordTok) {
+	max := 8
+	if r.P(1, 5) {
+		max = 14
+	}
+	ls = genStartList(r, 3, 'L', 8)
+	ps = genStartList(r, max, 'P', 20)
+	rs = genStartList(r, 5, 'R', 15)
+	for j := range ps {
+		if r.P(1, 2) {
+			ps[j].inst = true
+		}
+	}
+	cands := func() []int {
+		var out []int
+		for i, t := range ps {
+			if t.inst && uniqueAmongInst(ps, i) {
+				out = append(out, i)
+			}
+		}
+		return out
+	}
+	plainInst := false
+	for _, t := range ps {
+		if t.inst && t.rank() == 2 {
+			plainInst = true
+		}
+	}
+	if !plainInst && (len(cands()) == 0 || r.P(1, 2)) {
+		ps = append(ps, ordTok{cls: 'n', inst: true, id: len(ps)})
+	}
+	cs := cands()
+	if len(cs) == 0 { // several plain InstantiationAware processors and ties everywhere else: give one processor an Order of its own
+		i := r.Intn(len(ps))
+		ps[i].inst = true
+		ps[i].cls = []byte{'p', 'o'}[r.Intn(2)]
+		ps[i].key = 50 + r.Intn(5)
+		cs = []int{i}
+	}
+	pick := func() int { return cs[r.Intn(len(cs))] }
+	switch k := r.Intn(8); {
+	case k == 0:
+	case k <= 3:
+		ps[pick()].marks += "b"
+	case k == 4:
+		ps[pick()].marks += "d"
+	case k == 5:
+		ps[pick()].marks += "bd"
+	default:
+		i, j := pick(), pick()
+		ps[i].marks += "b"
+		if j == i {
+			ps[i].marks += "d"
+		} else {
+			ps[j].marks += "d"
+		}
+	}
+	if r.P(1, 10) {
+		ps[pick()].marks += "%"
+	}
+	if r.P(1, 2) {
+		for j := range ps {
+			if r.P(1, 3) {
+				ps[j].marks += "r"
+			}
+		}
+	}
+	if r.P(1, 3) {
+		addZeroSize(r, rs)
+	}
+	return
+}
+
+// addZeroSize: some runners become zero-size Go types (marker e): each with probability 2/3 while its class has a free Go
+// type, at least two of them when there are two runners, and one runner stays ordinary when there are three or more
+func addZeroSize(r *hx.Rng, rs []ordTok) {
+	var used [4]int
+	marked := 0
+	mark := func(i int) bool {
+		k := strings.IndexByte("ponq", rs[i].cls)
+		if rs[i].has('e') || used[k] == 3 {
+			return false
+		}
+		used[k]++
+		rs[i].marks += "e"
+		marked++
+		return true
+	}
+	order := r.Perm(len(rs))
+	for _, i := range order {
+		if r.P(2, 3) {
+			mark(i)
+		}
+	}
+	for _, i := range order {
+		if marked >= 2 {
+			break
+		}
+		mark(i)
+	}
+	if len(rs) >= 3 && marked == len(rs) {
+		i := order[0]
+		rs[i].marks = strings.ReplaceAll(rs[i].marks, "e", "")
+	}
+}
+
+// genZeroSizeStart: a start whose runner list has at least three runners, two or more of them zero-size
+func genZeroSizeStart(r *hx.Rng) (ls, ps, rs []ordTok) {
+	max := 8
+	if r.P(1, 5) {
+		max = 16
+	}
+	ls = genStartList(r, 3, 'L', 8)
+	ps = genStartList(r, 4, 'P', 15)
+	rs = genStartList(r, max, 'R', 25)
+	for tries := 0; len(rs) < 3 && tries < 4; tries++ {
+		rs = genStartList(r, max, 'R', 25)
+	}
+	for len(rs) < 3 {
+		t := ordTok{cls: genClass(r, [4]int{2, 2, 1, 1}), id: len(rs)}
+		if t.cls == 'p' || t.cls == 'o' {
+			t.key = 10 + len(rs) // an Order no other runner of the list has (stop markers stay tie-free)
+		}
+		rs = append(rs, t)
+	}
+	addZeroSize(r, rs)
+	return
+}
+
+func sbTags(ps, rs []ordTok) []string {
+	tags := []string{"before-instantiation"}
+	b, d := anyMark(ps, "b"), anyMark(ps, "d")
+	switch {
+	case b && d:
+		tags = append(tags, "supplied-both")
+	case b || d:
+		tags = append(tags, "supplied-one-of-two")
+	default:
+		tags = append(tags, "supplied-none")
+	}
+	if anyMark(ps, "r") {
+		tags = append(tags, "replacing-processor")
+	}
+	if anyMark(ps, "%") {
+		tags = append(tags, "before-instantiation-fails")
+	}
+	return tags
+}
+
+func zeroTags(rs []ordTok) []string {
+	n := 0
+	for _, t := range rs {
+		if t.has('e') {
+			n++
+		}
+	}
+	if n >= 2 {
+		return []string{"zero-size-runners>=2"}
+	}
+	if n == 1 {
+		return []string{"zero-size-runner"}
+	}
+	return nil
+}
+
 func orderStartGen(rng *hx.Rng, n int, tier string, w *hx.Writer) {
+	orderStartGenOld(rng, n, tier, w)
+	// after the n cases above (their streams are untouched): one start in five with two watched components and processors
+	// that supply instances before instantiation (`SB`) …
+	for i := 0; i < n/5; i++ {
+		ls, ps, rs := genSB(rng.Fork())
+		runOrderStartK("SB", ls, ps, rs, append(append(startTags(ls, ps, rs), sbTags(ps, rs)...), zeroTags(rs)...), w)
+	}
+	// … and one in five with zero-size runners next to ordinary ones (a quarter of them with the probe in a circular reference)
+	for i := 0; i < n/5; i++ {
+		r := rng.Fork()
+		ls, ps, rs := genZeroSizeStart(r)
+		if r.P(1, 4) {
+			runOrderStart(ls, ps, rs, true, append(append(startTags(ls, ps, rs), cycTags(ps)...), zeroTags(rs)...), w)
+		} else {
+			runOrderStart(ls, ps, rs, false, append(startTags(ls, ps, rs), zeroTags(rs)...), w)
+		}
+	}
+}
+
+func orderStartGenOld(rng *hx.Rng, n int, tier string, w *hx.Writer) {
 	for i := 0; i < n; i++ {
 		r := rng.Fork()
 		kind := r.Intn(10) // 0-4 plain start, 5-7 start with a circular probe (early reference), 8-9 Configure step sequence
@@ -1578,6 +2138,25 @@ func orderStartCorpus(w *hx.Writer) {
 		"Q S n+ o5+ p9 / I / I / A p1+ n / I / S q o-1 / I",
 		"Q S o2+ p1 n! n / I / S n n o1 p1 / I",
 		"Q A o3 / A p2* n / I / S n o-9223372036854775808 o9223372036854775807 / I / S / I",
+		// zero-size runners (e) of different Go types next to ordinary ones: every registered runner runs once, in contract order
+		"S L P R ne ne",
+		"S L P R o0e p5e",
+		"S L P o1 R p3e o-1e n p-2 qe ne o-1 ne o7e! n",
+		"S L P R p1e p1e p1e o1e o1e o1e ne ne ne qe qe qe p1 o1 n q",
+		"SC L P so1 sn R o2e p1e n",
+		// instances supplied before instantiation (b: ordprobe, d: ordtwin): the short-circuit runs the after-initialization chain only
+		"SB L P R",
+		"SB L P o50 n p1048576 o-7 p-1 o-7 inb R",
+		"SB L P o50 n p1048576 o-7 p-1 o-7 ind R n",
+		"SB L P o50 n ip1 io-7bd p-1 o-7 in R",
+		"SB L P o50r n ip1 io-7b p-1 o-7r ind R p1e ne",
+		"SB L o1+ P ip3 io1b io2d n R o1 p5",
+		"SB L P ip3 io1% io2b n R o1",
+		"SB L P ip3b o1^ io2d n R o1",
+		"SB L P ip3b o1~ o2r n inz R o1",
+		"SB L P p3 io1? io2bd n R o1",
+		"SB L P iqb ip1z o5z o9 R",
+		"SB L P so1 sp-9223372036854775808b sn R o1",
 	} {
 		orderReplay(s, w)
 	}
@@ -1622,7 +2201,7 @@ func orderReplay(scn string, w *hx.Writer) {
 		if ops, ok := parseConfOps(f[1:]); ok {
 			runOrderConf(ops, append(confTags(ops), "replay"), w)
 		}
-	case "S", "SC":
+	case "S", "SC", "SB":
 		l, p, r, ok := splitSections(f[1:])
 		if !ok {
 			return
@@ -1635,7 +2214,10 @@ func orderReplay(scn string, w *hx.Writer) {
 			if f[0] == "SC" {
 				tags = append(tags, cycTags(ps)...)
 			}
-			runOrderStart(ls, ps, rs, f[0] == "SC", append(tags, "replay"), w)
+			if f[0] == "SB" {
+				tags = append(tags, sbTags(ps, rs)...)
+			}
+			runOrderStartK(f[0], ls, ps, rs, append(append(tags, zeroTags(rs)...), "replay"), w)
 		}
 	}
 }
